@@ -41,9 +41,18 @@ def guardedOK (tbl : List Method) (extra : List String) : Bool :=
 def touchesGuarded (tbl : List Method) (extra : List String) (m : Method) : Bool :=
   m.accesses.any (fun a => guarded tbl extra a.field)
 
-/-- a method that touches guarded state does so in ONE critical section (the model makes it one atomic step) -/
+/-- a method that touches guarded state of ITS OWN receiver does so in ONE critical section of the receiver's mutex: it is
+    atomic with respect to that object only. Calls it makes into another object while holding its mutex
+    (`crossUnderLock`) are critical sections of the OTHER object's mutex, one per call: `TransactionCache.Commit` holds
+    `tc.mu` throughout but takes the block cache's `mu` once PER KEY (`main.setValue`), so other users of the block
+    cache can observe half a transaction; `BlockCache.Get` / `TransactionCache.Get` call the next layer's `Get`. -/
 def atomicOK (tbl : List Method) (extra : List String) : Bool :=
   (entries tbl).all (fun m => !touchesGuarded tbl extra m || (m.sections == 1 && !m.reentrant && m.lock != .unknown))
+
+/-- the methods of OTHER objects (reached through a field) that the entry points call while holding their own mutex -/
+def crossUnderLock (tbl : List Method) : List String :=
+  ((entries tbl).flatMap (fun m => m.accesses.filterMap (fun a =>
+    if a.kind == .call && a.mode != .none then some a.callee else none))).eraseDups
 
 /-- non-vacuity: the table has a method of that name and it touches guarded state -/
 def present (tbl : List Method) (extra : List String) (name : String) : Bool :=
